@@ -441,9 +441,10 @@ func VH_C12_FromDec() {
 	vAssert(BigDecFromDec(d).i.Cmp(new(big.Int).Mul(b, c12T)) == 0, "BigDecFromDec")
 	vAssert(d.BigIntMut().Cmp(b) == 0, "BigDecFromDec:argument-untouched")
 	vAssert(BigDecFromDecMut(c12Dec(b)).i.Cmp(new(big.Int).Mul(b, c12T)) == 0, "BigDecFromDecMut")
-	i := NewIntFromBigInt(new(big.Int).Set(b))
-	vAssert(BigDecFromSDKInt(i).i.Cmp(new(big.Int).Mul(b, c12S)) == 0, "BigDecFromSDKInt")
-	vAssert(i.BigIntMut().Cmp(b) == 0, "BigDecFromSDKInt:argument-untouched")
+	k := c12Operand("k", new(big.Int).Lsh(big.NewInt(1), 256)) // sdk Int bound
+	i := NewIntFromBigInt(new(big.Int).Set(k))
+	vAssert(BigDecFromSDKInt(i).i.Cmp(new(big.Int).Mul(k, c12S)) == 0, "BigDecFromSDKInt")
+	vAssert(i.BigIntMut().Cmp(k) == 0, "BigDecFromSDKInt:argument-untouched")
 	e := c12Dec(c)
 	vAssert(NewBigDecFromDecMulDec(d, e).i.Cmp(new(big.Int).Mul(b, c)) == 0, "NewBigDecFromDecMulDec")
 	vAssert(d.BigIntMut().Cmp(b) == 0 && e.BigIntMut().Cmp(c) == 0, "NewBigDecFromDecMulDec:arguments-untouched")
@@ -500,8 +501,27 @@ func VH_C12_BigIntQuoMod() {
 	vAssert(x.i.Cmp(a) == 0 && y.i.Cmp(b) == 0, "operands-untouched")
 }
 
+// BigInt.Mul pre-checks BitLen(a)+BitLen(b)-1 before multiplying. The sum of two symbolic bit lengths needs
+// 2^(la+lb) reasoning that is outside linear/non-linear integer arithmetic, so the bit length of the first
+// operand is case-split (concrete la, symbolic a with 2^(la-1) <= |a| < 2^la, fully symbolic b).
+// quick: 12 representative la; thorough: every la in 0..1024.
+var c12MulBitLens = []int{0, 1, 2, 63, 64, 65, 511, 512, 513, 1022, 1023, 1024}
+
 func VH_C12_BigIntMul() {
+	vConfig("bitlen_dense", 1030) // characterise BitLen at every threshold 0..1030
+	var la int
+	if vTier() == 1 {
+		la = vChoose("la", 1025)
+	} else {
+		la = c12MulBitLens[vChoose("la_idx", len(c12MulBitLens))]
+	}
 	a, b := c12Operand("a", c12LimI), c12Operand("b", c12LimI)
+	if la == 0 {
+		vAssume(a.Sign() == 0)
+	} else {
+		vAssume(a.CmpAbs(new(big.Int).Lsh(big.NewInt(1), uint(la-1))) >= 0)
+		vAssume(a.CmpAbs(new(big.Int).Lsh(big.NewInt(1), uint(la))) < 0)
+	}
 	x, y := c12BI(a), c12BI(b)
 	vReach("reach")
 	prod := new(big.Int).Mul(a, b)
@@ -544,7 +564,9 @@ func VH_C12_DivIntByU64() {
 // ---------------------------------------------------------------- SigFigRound leaves its argument untouched
 
 func VH_C12_SigFigRoundOperand() {
+	// positive values only: for d <= 0 the scaling loop of SigFigRound does not terminate normally (see C13)
 	b := c12Operand("b", new(big.Int).Lsh(big.NewInt(1), 200))
+	vAssume(b.Sign() > 0)
 	s := int64(vChoose("s", 4)) + 1
 	d := c12Dec(b)
 	ten := NewIntFromBigInt(new(big.Int).Exp(big.NewInt(10), big.NewInt(s), nil))
